@@ -165,6 +165,8 @@ theorem h_socks5 (w : World) (f : Nat) (c : Cmd) :
       obtain ⟨hmi, _⟩ := getRef_some _ _ _ _ hm
       split
       · exact holdsRun_err ..
+      split
+      · exact holdsRun_err ..
       · rename_i hchk
         simp only [beq_self_eq_true, Bool.true_and, Bool.or_eq_true, beq_iff_eq, bne_iff_ne, ne_eq, not_or,
           Decidable.not_not] at hchk
@@ -208,11 +210,15 @@ theorem h_traffic (w : World) (f : Nat) (c : Cmd) :
     · rename_i i m hm
       obtain ⟨hmi, _⟩ := getRef_some _ _ _ _ hm
       split
+      · exact holdsRun_quiet ..
+      split
       · exact holdsRun_err ..
       · rename_i hchk
         simp only [beq_self_eq_true, Bool.true_and, Bool.or_eq_true, beq_iff_eq, Bool.not_eq_true', not_or,
           Bool.not_eq_false] at hchk
         obtain ⟨hid, hp⟩ := hchk
+        split
+        · exact holdsRun_quiet ..
         apply holdsRun_intro
         · intro o ho; simp at ho
         · intro x hx
@@ -373,6 +379,8 @@ theorem h_mapGet (w : World) (f : Nat) (c : Cmd) :
         obtain ⟨hmi, _⟩ := getRef_some _ _ _ _ hm
         split
         · exact holdsRun_failResp ..
+        split
+        · exact holdsRun_failResp ..
         · rename_i hp
           simp only [Bool.not_eq_true', Bool.not_eq_false] at hp
           apply holdsRun_ok _ _ _ _ _ _ _ hid
@@ -395,13 +403,21 @@ theorem h_mapDelete (w : World) (f : Nat) (c : Cmd) :
         obtain ⟨hmi, _⟩ := getRef_some _ _ _ _ hm
         split
         · exact holdsRun_failResp ..
+        split
+        · exact holdsRun_failResp ..
         · rename_i hp
           simp only [Bool.not_eq_true', Bool.not_eq_false] at hp
-          apply holdsRun_ok _ _ _ _ _ _ _ hid
-          · intro o ho; simp at ho
-          · intro x hx; simp only [List.mem_singleton] at hx; subst hx
-            simp [chgAllowed, partyOf_map w _ i m hmi hp]
-          · intro d hd; simp at hd
+          split
+          · apply holdsRun_ok _ _ _ _ _ _ _ hid
+            · intro o ho; simp at ho
+            · intro x hx; simp only [List.mem_singleton] at hx; subst hx
+              simp [chgAllowed, partyOf_map w _ i m hmi hp]
+            · intro d hd; simp at hd
+          · apply holdsRun_ok _ _ _ _ _ _ _ hid
+            · intro o ho; simp at ho
+            · intro x hx; simp only [List.mem_singleton] at hx; subst hx
+              simp [chgAllowed, partyOf_map w _ i m hmi hp]
+            · intro d hd; simp at hd
 
 theorem h_domCreate (w : World) (f : Nat) (c : Cmd) :
     holdsRun w f c true (execH .repaired .domCreate w f c) = true := by
